@@ -1299,6 +1299,10 @@ def run_H(pid, tier, seed):
             stats["operations"] += 1
             stats["op_kinds"][op["op"]] = stats["op_kinds"].get(op["op"], 0) + 1
             outc = rec["out"]
+            if outc[0] == "EXC" and outc[1] == "FileNotFoundError" and op["op"] == "xrun" and \
+                    ans.get(hid, {}).get(rec.get("line"), [""])[0] == "NOFILE":
+                stats["restart_without_file"] = stats.get("restart_without_file", 0) + 1
+                continue      # the model has no file there either: both refuse
             if outc[0] == "EXC":
                 sig = "%s-raised:%s" % (op["op"], outc[1])
                 failures.append(Failure("counterexample", sig, scen, dict(op=op, exc=outc), slice_="H"))
